@@ -514,4 +514,19 @@ example : checkHeader (Bytes.ofNatBE 4 magicValue ++ Bytes.ofNatBE 4 (maxPadding
     checkHeader (Bytes.ofNatBE 4 (magicValue + 1) ++ Bytes.ofNatBE 4 0) = .error .badMagic := by
   decide
 
+
+/-- **structural fact, regenerated from the Go source on every run (go/ast)**: every package-level
+    variable (file-scope `var`) of the packages this property's mechanisms live in
+    (transports/obfs2) is one of the names below — error values, fixed byte strings,
+    flags and function hooks that the code only reads after initialisation.  The models treat all
+    other state as owned by one connection / one object; a NEW package-level variable (a cache, a
+    pool, a scratch buffer, a pre-keyed hash shared "to save allocations") is how such state comes
+    to be shared between connections and goroutines, which compiles, passes the tests and typically
+    needs true parallelism or a multi-connection history to misbehave.  Adding one breaks this
+    theorem; the concurrent / multi-connection families of the harness then search for the failing
+    schedule. -/
+theorem no_new_package_level_state :
+    O4.Facts.Obfs2.pkg_vars ⊆ [] := by
+  decide
+
 end C14
